@@ -70,6 +70,10 @@ def build():
          requires=[E('at', 'vec_at(old(self), id)')],
          ensures=[E('val', '*r == vec_val(old(self), id) && vec_at(final(self), id) && vec_val(final(self), id) == *final(r)'),
                   E('frame', 'final(self).0@.len() == old(self).0@.len() && forall|j: int| 0 <= j < old(self).0@.len() && j != id ==> #[trigger] final(self).0@[j] == old(self).0@[j]')])
+    SLR = [('N10', r'SyncUnsafeCell::as_cell_of_slice\((.*?)\)\.get\(\)', r'cells_as_slice(\1)')]
+    u.fn(ST, ['impl<T> SliceAccess<T> for VecStorage<T>', 'fn as_slice'], ret='r', props='C04', key='VecStorage::as_slice', impl_header=VI,
+         rules=SLR + [('N8', r'Self::Element', 'MaybeUninit<T>')],
+         ensures=[E('view', 'r@.len() == self.0@.len() && forall|i: int| 0 <= i < self.0@.len() ==> r@[i] == (#[trigger] self.0@[i]).cv()')])
     # ---------------- DefaultVecStorage
     u.struct(ST, ['struct DefaultVecStorage'], attr='#[verifier::reject_recursive_types(T)]')
     DH = 'impl<T> UnprotectedStorage<T> for DefaultVecStorage<T> where T: Default,'
@@ -77,6 +81,9 @@ def build():
     u.fn(ST, ['impl<T> Default for DefaultVecStorage<T>', 'fn default'], ret='r', props='C04', key='DefaultVecStorage::default', impl_header='impl<T> DefaultVecStorage<T>',
          rules=[('N12', r'Self\(Default::default\(\)\)', 'Self(Vec::new())')],
          ensures=[E('empty', 'r.0@.len() == 0')])
+    u.fn(ST, ['impl<T> SliceAccess<T> for DefaultVecStorage<T>', 'fn as_slice'], ret='r', props='C04', key='DefaultVecStorage::as_slice', impl_header='impl<T> DefaultVecStorage<T>',
+         rules=SLR + [('N8', r'Self::Element', 'T')],
+         ensures=[E('view', 'r@.len() == self.0@.len() && forall|i: int| 0 <= i < self.0@.len() ==> r@[i] == (#[trigger] self.0@[i]).cv()')])
     u.fn(ST, [DH, 'fn clean'], props='C04', key='DefaultVecStorage::clean', impl_header=DI,
          ensures=[E('empty', 'final(self).0@.len() == 0')])
     u.fn(ST, [DH, 'fn get'], ret='r', props='C04', key='DefaultVecStorage::get', impl_header=DI, rules=N19,
